@@ -57,6 +57,17 @@ def token_mutant(src, toks, rng):
     k = rng.random()
     i = rng.randrange(len(toks))
     (t, lit, off) = toks[i]
+    if rng.random() < 0.12:
+        # a lexeme that is no token of the front end at all (the scanner must hand it over as ILLEGAL), at a token boundary; preferably
+        # where the file read so far is complete: after a ';' or at the very end
+        bad = rng.choice([b",", b"/", b"<", b"<=", b"import", b"#", b"@", b"$", b"=", b"!", b"%", b"~", b"\\", b"?"])
+        ends = [x for x in toks if x[1] == b";"]
+        if ends and rng.random() < 0.7:
+            (t2, l2, o2) = rng.choice(ends)
+            at = o2 + 1
+        else:
+            at = rng.choice([off, len(src)])
+        return src[:at] + b" " + bad + b" " + src[at:], "insert the non-token %r" % bad
     if k < 0.3:
         return src[:off] + src[off + len(lit):], "delete token %r" % lit
     if k < 0.55:
